@@ -70,12 +70,13 @@ func resolveTypes(env *Environment, errorSink *validation.ErrorSink) *Environmen
 			}
 			return
 		case *SimpleType:
+			// The type arguments are the only children: visit them once
 			self.VisitChildren(node, context)
 			err := resolveType(t, context.currentNamespace, context.symbolTable, true)
 			if err != nil {
 				errorSink.Add(validationError(t, "%s", err.Error()))
-				break
 			}
+			return
 		}
 
 		self.VisitChildren(node, context)
@@ -112,12 +113,13 @@ func convertGenericReferences(env *Environment, errorSink *validation.ErrorSink)
 			}
 			return
 		case *SimpleType:
+			// The type arguments are the only children: visit them once
 			self.VisitChildren(node, context)
 			err := resolveType(t, context.currentNamespace, context.symbolTable, false)
 			if err != nil {
 				errorSink.Add(validationError(t, "%s", err.Error()))
-				break
 			}
+			return
 		}
 
 		self.VisitChildren(node, context)
